@@ -201,6 +201,99 @@ def batch_affine(ctx):
                    exhaustive_subbatch_one_param=n_exh, stats=stats)
 
 
+def batch_consumers(ctx):
+    """every consumer of the shape-equality decision (broadcasting, where, stack, einsum axis matching, matmul,
+    broadcast_to, call argument checking, CSR construction) accepts operand shapes (a, 3) / (b, 3) exactly when
+    a = b for all valuations (or NumPy broadcasting admits them: one of them the constant 1); accepted results have
+    the right inferred shape"""
+    import pytato as pt
+    sp = {p: pt.make_size_param(p) for p in PARAMS}
+    rng = random.Random(ctx.seed * 577 + 161)
+    box = range(0, 4)      # admissible (non-negative for every valuation) lengths only
+    N = 1200 if ctx.thorough else 220
+    pairs = []
+    for _ in range(N):
+        np_ = rng.choice([1, 2, 2, 3])
+        a = [rng.choice(box) for _ in range(1 + np_)] + [0] * (3 - np_)
+        if rng.random() < 0.6:
+            b = list(a)
+            if rng.random() < 0.3:
+                b[rng.randrange(1 + np_)] += rng.choice([-1, 1])
+                b = [max(0, x) for x in b]
+        else:
+            b = [rng.choice(box) for _ in range(1 + np_)] + [0] * (3 - np_)
+        pairs.append((tuple(a), tuple(b), rng.randrange(4), rng.randrange(4)))
+    f64 = np.float64
+
+    def mk(name, shape):
+        return pt.make_placeholder(name, shape, f64)
+
+    def c_add(da, db):
+        return mk("x", (da, 3)) + mk("y", (db, 3))
+
+    def c_where(da, db):
+        return pt.where(pt.greater(mk("c", (da, 3)), 0), mk("x", (db, 3)), 1.0)
+
+    def c_stack(da, db):
+        return pt.stack([mk("x", (da, 3)), mk("y", (db, 3))], axis=rng.choice([0, 1, 2]))
+
+    def c_einsum(da, db):
+        return pt.einsum("ij,ij->j", mk("x", (da, 3)), mk("y", (db, 3))) if isinstance(da, int) and isinstance(db, int) \
+            else pt.einsum("ij,ij->ij", mk("x", (da, 3)), mk("y", (db, 3)))
+
+    def c_matmul(da, db):
+        return mk("x", (2, da)) @ mk("y", (db, 3)) if isinstance(da, int) and isinstance(db, int) \
+            else pt.einsum("ij,kj->ijk", mk("x", (2, da)), mk("y", (3, db)))
+
+    def c_broadcast_to(da, db):
+        return pt.broadcast_to(mk("x", (da, 3)), (2, db, 3))
+
+    def c_call(da, db):
+        def f(u):
+            return 2 * u
+        r = pt.trace_call(f, mk("x", (da, 3)))
+        fdef = r._container.function
+        (pname,) = fdef.parameters
+        return fdef(**{pname: mk("y", (db, 3))})
+
+    def c_csr(da, db):
+        return pt.make_csr_matrix((4, 4), mk("ev", (da,)), pt.make_placeholder("ec", (db,), np.int64),
+                                  pt.make_placeholder("rs", (5,), np.int64))
+
+    # name -> (constructor, NumPy-broadcasting admitted, which operand may be 1)
+    consumers = {"add": (c_add, "both"), "where": (c_where, "both"), "stack": (c_stack, None),
+                 "einsum": (c_einsum, "both"), "einsum-3": (c_matmul, "both"), "broadcast_to": (c_broadcast_to, "first"),
+                 "call": (c_call, None), "csr": (c_csr, None)}
+    cases = dis = 0
+    stats = {k: {"accepted": 0, "rejected": 0} for k in consumers}
+    for a, b, fa, fb in pairs:
+        da, db = build_dim(a, fa, sp), build_dim(b, fb, sp)
+        vals = [(eval_dim(da, v), eval_dim(db, v)) for v in grid_valuations()]
+        eq = all(x == y for x, y in vals)
+        a_is1 = all(x == 1 for x, _ in vals)
+        b_is1 = all(y == 1 for _, y in vals)
+        for cname, (ctor, bc) in consumers.items():
+            cases += 1
+            expect = eq or (bc == "both" and (a_is1 or b_is1)) or (bc == "first" and a_is1)
+            try:
+                r = ctor(da, db)
+                got, err = True, None
+            except (ValueError, TypeError) as e:
+                got, err = False, f"{type(e).__name__}: {str(e)[:100]}"
+            except Exception as e:   # noqa: BLE001
+                got, err = None, f"{type(e).__name__}: {str(e)[:100]}"
+            stats[cname]["accepted" if got else "rejected"] += 1
+            if got != expect:
+                dis += 1
+                desc = {"consumer": cname, "a": a, "b": b, "forms": (fa, fb), "exprs": (str(da), str(db))}
+                ctx.violation(f"shape-decision-in-consumer:{cname}:{'rejects-equal' if expect else 'accepts-unequal'}",
+                              f"{cname} on operand lengths {a} (form {fa}) / {b} (form {fb}) "
+                              f"{'accepted' if got else 'rejected (' + str(err) + ')'} although the lengths are "
+                              f"{'equal' if eq else 'not equal'} for all valuations (values on the grid {vals[:4]})",
+                              dict(desc, accepted=got, error=err, equal=eq))
+    ctx.note_batch("shape-decision-consumers", cases, dis, exhaustive=False, per_consumer=stats)
+
+
 # ---------------------------------------------------------------- symbolic programs
 
 def sym_programs(ctx, count):
@@ -219,11 +312,16 @@ def sym_programs(ctx, count):
             return pt.make_placeholder(nm, shape, dtype)
         r = rng.randint(1, 3)
         shape = tuple(rng.choice(dims) for _ in range(r))
+        focus = pi % 4 == 3
+        if focus:
+            # a matrix whose two extents depend on different size parameters, contracted over several indices first
+            shape = tuple(rng.sample([n, m, m + 1, 2 * n, n + m], 2))
         pool = [leaf(shape)]
-        for _ in range(rng.randint(1, 5)):
+        for step in range(rng.randint(1, 5)):
             a = rng.choice(pool)
-            op = rng.choice(["binary", "binary", "scalar", "transpose", "roll", "stack", "sum",
-                             "einsum", "bcast", "where", "neg"])
+            op = "einsum2" if focus and step == 0 else rng.choice(["binary", "binary", "scalar", "transpose", "roll", "stack", "sum",
+                             "einsum", "einsum2", "bcast", "where", "neg", "pad", "pad", "stride", "concat",
+                             "expand", "bcast_to"])
             try:
                 if op == "binary":
                     bshape = tuple(d if rng.random() < 0.7 else 1 for d in a.shape)
@@ -256,11 +354,58 @@ def sym_programs(ctx, count):
                         continue
                     b = leaf((a.shape[1], rng.choice(dims)))
                     e = pt.einsum("ij,jk->ik", a, b)
+                elif op == "einsum2":
+                    # several reduction indices whose extents depend on different size parameters
+                    if a.ndim != 2:
+                        continue
+                    which = rng.randrange(4)
+                    if which == 0:
+                        d2 = rng.choice(dims)
+                        e = pt.einsum("ij,jk,kl->il", a, leaf((a.shape[1], d2)), leaf((d2, rng.choice(dims))))
+                    elif which == 1:
+                        e = pt.einsum("ij,ij->", a, leaf(a.shape))
+                    elif which == 2:
+                        e = pt.einsum("ij,jk->k", a, leaf((a.shape[1], rng.choice(dims))))
+                    else:
+                        e = pt.einsum("ij,j,i->", a, leaf((a.shape[1],)), leaf((a.shape[0],)))
                 elif op == "bcast":
                     e = a + pt.zeros(a.shape, dtype=np.float64)
                 elif op == "where":
                     b = leaf(a.shape)
                     e = pt.where(pt.greater(a, b), a, b)
+                elif op == "pad":
+                    if a.ndim == 0:
+                        continue
+                    pw = tuple((rng.randint(0, 3), rng.randint(0, 3)) for _ in range(a.ndim))
+                    if rng.random() < 0.5:
+                        e = pt.pad(a, pw)
+                    else:
+                        e = pt.pad(a, pw, constant_values=tuple((float(rng.randint(-2, 2)), float(rng.randint(-2, 2)))
+                                                                for _ in range(a.ndim)))
+                elif op == "stride":
+                    if a.ndim == 0:
+                        continue
+                    # negative steps only on static axes: a symbolic start (n-1) is not lowered on this tree
+                    e = a[tuple(slice(None, None, rng.choice([1, 1, 2, 3, -1, -2] if isinstance(d, int) else [1, 2, 3]))
+                                for d in a.shape)]
+                elif op == "concat":
+                    if a.ndim == 0:
+                        continue
+                    # along the concatenation axis only static lengths: lowering a concatenation along a
+                    # symbolic axis is not implemented on this tree (TypeError in map_concatenate; DESIGN §8)
+                    static = [i for i, d in enumerate(a.shape) if isinstance(d, int)]
+                    if not static:
+                        continue
+                    ax = rng.choice(static)
+                    bshape = tuple(rng.choice([1, 2, 3]) if i == ax else d for i, d in enumerate(a.shape))
+                    parts = [a, leaf(bshape)]
+                    if rng.random() < 0.5:
+                        parts.reverse()
+                    e = pt.concatenate(parts, axis=ax)
+                elif op == "expand":
+                    e = pt.expand_dims(a, rng.randint(0, a.ndim))
+                elif op == "bcast_to":
+                    e = pt.broadcast_to(a, (rng.choice([1, 2, 3]), *a.shape))
             except Exception as ex:   # constructor rejected the combination: fine
                 continue
             pool.append(e)
@@ -367,6 +512,7 @@ def run(ctx: common.Ctx):
     ]
     ctx.lean_obligations("PtProofs.C16", THEOREMS)
     batch_affine(ctx)
+    batch_consumers(ctx)
     progs = batch_symbolic(ctx)
     batch_kernels(ctx, progs)
     ctx.broken = sorted(set(ctx.broken))[:50]
